@@ -202,6 +202,23 @@ def run(ck, prog, tier, load):
             ok = any(e_calls(x, r"ResourceDef::parse$") for x in deep_conds(cons, e)) or bool(e_calls(e, r"ResourceDef::parse$"))
     ck.ob("C10-d.segments-from-parse", "construct", ok, cons, agg[0][0] if agg else None, "ResourceDef.segments is initialised from parse()'s output")
 
+    # building a path from a pattern: static pieces and supplied values are appended verbatim, in segment order
+    bp = prog.one(r"^%s::build_resource_path$" % RD)
+    pushes_b = [(bb, t, bp.op_expr(t["args"][1], 6)) for bb, t in bp.calls(r"String::push_str$")]
+    ck.anchor("C10-d", len(pushes_b), 2, "push_str sites in build_resource_path")
+    PASS = r"Deref>::deref$|Deref::deref$|AsRef.*::as_ref$|Borrow.*::borrow$|String::as_str$"
+    for bb, t, e in pushes_b:
+        arm = [lab for c, lab, a in bp.guards(bb) if c[0] == "discr" and isinstance(lab, str) and lab in ("Const", "Var", "Tail")]
+        other = [c_ for c_ in e_calls(e) if not rx(PASS).search(c_[1] or "") and not rx(r"Iterator>::next$|IntoIterator>::into_iter$|FnMut.*::call_mut$|Fn.*::call$").search(c_[1] or "")]
+        verbatim = not other and not e_bins(e) and not any(x[0] == "phi" for x in walk(e))
+        if arm and arm[0] == "Const":
+            src_ok = any(x[0] == "place" and any(isinstance(p_, str) and p_ == "@Const" for p_ in x[2]) for x in walk(e))
+        else:
+            src_ok = bool(e_calls(e, r"FnMut.*::call_mut$|Fn.*::call$"))
+        ck.ob("C10-d.build-appends-verbatim", "build_resource_path|%s" % (arm[0] if arm else "?"), verbatim and src_ok, bp, bb,
+              "the text appended for a %s segment is exactly the stored static text / the supplied value (no trimming, joining or re-encoding: a built path must match its own pattern and give the values back): %s" % (arm[0] if arm else "?", short(e, 5)))
+    it = [bb for bb, t in bp.calls(r"::rev$|next_back$")]
+    ck.ob("C10-d.build-in-order", "build_resource_path", not it, bp, it[0] if it else None, "segments are visited front to back")
     # ---- (e) percent-decoder -----------------------------------------------------------------
     dn = prog.one(r"^actix_router::quoter::Quoter::decode_next$")
     sp = [bb for bb, t in dn.calls(r"split_at$")]
